@@ -429,7 +429,9 @@ func fileSize(p string) int64 {
 func (p c20) checkOrder(c *core.C, cs c20Case, events []core.InotifyEvent, wdDst, wdSrc int, ctlName string, ok bool) {
 	names := map[string]bool{}
 	for _, n := range cs.Names {
-		names[filepath.Base(n)] = true
+		if filepath.Base(n) != ctlName { // a control file that lists itself is still only the control file
+			names[filepath.Base(n)] = true
+		}
 	}
 	desc := func() string {
 		var s []string
